@@ -10,7 +10,7 @@ from mcx.envh import *  # noqa
 from mcx.enumr import shard
 from mcx.common import Report, pmap, close
 from tradingenv.contracts import ES, FutureChain
-from tradingenv.rewards import RewardSimpleReturn, RewardLogReturn, LogReturn, RewardPnL
+from tradingenv.rewards import RewardSimpleReturn, RewardLogReturn, LogReturn, RewardPnL, AbstractReward
 
 LEVEL = "exploration"
 ACTIONS = [(0.5, 0.25), (-0.25, 0.75), (0.0, 1.0)]
@@ -335,6 +335,68 @@ def run_sequence(env, sink, cash, cfg, seq):
     return msgs
 
 
+# ---------------------------------------------------------------------------
+# "exactly one entry per executed decision", judged from the ACCOUNT (positions before / after each call), not from the record:
+# episodes on quotes whose ask is twice the bid, so that a leveraged decision can ruin the account by its own execution
+
+KF_NOENTRY = "executed-decision-without-entry:own-execution-ruin"
+OWN_ACTIONS = [3.0, -3.0, 0.5]
+
+
+class FlatReward(AbstractReward):
+    def calculate(self, env):
+        return 0.0
+
+
+def run_ownruin(cfg, seq):
+    """returns list of (message, signature-or-None)"""
+    _, r, delay, reward, nbars = cfg
+    reset_clock()
+    c = ETF("A")
+    G = days(datetime(2021, 3, 1), nbars)
+    quotes = [(64.0, 128.0 if i >= r - 1 else 64.0) for i in range(nbars)]
+    tr_ = Transmitter(list(G))
+    tr_.add_events([EventNBBO(g, c, b, a) for g, (b, a) in zip(G, quotes)])
+    env = TradingEnv(BoxPortfolio([c], -3.0, 3.0), transmitter=tr_, steps_delay=delay, initial_cash=1024.0,
+                     reward=FlatReward() if reward == "flat" else RewardSimpleReturn())
+    env.reset()
+    out = []
+    rec = env.broker.track_record
+
+    def account():
+        h = env.broker.holdings_quantity
+        return float(sum(v for k, v in h.items() if isinstance(k, Cash))), float(h.get(c, 0.0))
+
+    for k, a in enumerate(seq):
+        cash0, q0 = account()
+        n0 = len(rec)
+        exc = None
+        try:
+            env.step(np.array([OWN_ACTIONS[a]]))
+        except Exception as ex:
+            exc = ex
+        cash1, q1 = account()
+        added = len(rec) - n0
+        bid, ask = quotes[k]
+        if q1 != q0:
+            worth = cash1 + q1 * (bid if q1 > 0 else ask)     # fully-paid contract: cash + position at its liquidation side
+            if added != 1:
+                out.append(("decision %d was executed (position %r -> %r, account then worth %r) and left %d track-record entries"
+                            % (k, q0, q1, worth, added), KF_NOENTRY if (added == 0 and worth <= 0) else None))
+            else:
+                e = rec[-1]
+                dq = sum(t.quantity for t in e.trades)
+                if not close(dq, q1 - q0):
+                    out.append(("decision %d moved the position by %r, its entry records trades of %r" % (k, q1 - q0, dq), None))
+                if not close(e.context_post.nlv, worth):
+                    out.append(("decision %d: recorded post-trade NLV %r, the account is worth %r" % (k, e.context_post.nlv, worth), None))
+        elif added > 1:
+            out.append(("call %d added %d track-record entries" % (k, added), None))
+        if exc is not None:
+            break
+    return out
+
+
 def units(tier):
     out = []
     nbars = 5 if tier == "quick" else 6
@@ -362,12 +424,29 @@ def units(tier):
     for delay in (0, 1):
         for reward in REWARDS:
             out.append(("crash", 0, delay, reward, False, False, 6))
+    for r in (1, 2, 3):
+        for delay in (0, 1):
+            for reward in ("flat", "simple"):
+                out.append(("ownruin", r, delay, reward, 6))
     return out
 
 
 def _work(chunk):
     out = {"evaluations": 0, "violations": [], "outcomes": set(), "nontrivial": 0}
     for cfg in chunk:
+        if cfg[0] == "ownruin":
+            for seq in itertools.product(range(len(OWN_ACTIONS)), repeat=cfg[4] - 2):
+                try:
+                    res = run_ownruin(cfg, seq)
+                except Exception as ex:
+                    res = [("harness: case raised %r" % (ex,), None)]
+                out["evaluations"] += 1
+                out["outcomes"].add(hash((cfg, seq, tuple(m for m, _ in res))))
+                out["nontrivial"] += 1
+                for m, sig in res:
+                    out["violations"].append(({"cfg": list(cfg), "seq": list(seq), "prior": 0}, "config %s actions %s: %s" % (cfg, list(seq), m),
+                                              ("ownruin", m.split(" ")[2], cfg[3]), sig))
+            continue
         try:
             env, sink, cash = build(cfg)
         except Exception as ex:
@@ -400,14 +479,16 @@ def run(tier, **kw):
         rep.add("evaluations", r["evaluations"])
         rep.add("distinct_nontrivial_raw", r["nontrivial"])
         outcomes |= r["outcomes"]
-        for case, msg, group in r["violations"]:
-            rep.violation(case, msg, group=group)
+        for v in r["violations"]:
+            case, msg, group = v[:3]
+            rep.violation(case, msg, sig=(v[3] if len(v) > 3 else None), group=group)
     rep.set("environments_built", len(us))
     rep.set("distinct_nontrivial", len(outcomes))
     rep.set("exhaustive", True)
     rep.set("rule", "one evaluation = one complete episode; enumerated: {ETF + user margined, multiplier-4 spot + ES-like, ETF + ES chain across a roll} x "
                     "latency {0, 30s with quotes inside/outside the window} x delay {0,1} x 4 rewards x {no frictions, spread+fees+markup+changing rate path} "
-                    "x ALL 3^(bars-1) action sequences (environment reused via reset); distinct_nontrivial = distinct (configuration, recorded NLV path) outcomes")
+                    "x ALL 3^(bars-1) action sequences (environment reused via reset); plus 'one entry per executed decision' judged from the account itself "
+                    "(positions before/after every call) on quotes with ask = 2 x bid, targets {+3, -3, 0.5}, all 3^4 sequences, delays 0/1, a valuing and a non-valuing reward; distinct_nontrivial = distinct (configuration, recorded NLV path) outcomes")
     rep.set("samples", [{"cfg": ["chain", 30, 1, "shaped", True, True, 5], "seq": [0, 1, 2, 0]}])
     rep.assumptions = ["the independent ledger reads only TrackRecord entries (time, profit_on_idle_cash, trades' quantity/acq_price/commission) and Exchange quote history",
                        "commission amounts themselves are checked by C01, interest amounts by C06"]
@@ -416,6 +497,10 @@ def run(tier, **kw):
 
 def replay(case, **kw):
     cfg = tuple(case["cfg"])
+    if cfg[0] == "ownruin":
+        from mcx.common import Known
+        kn = Known()
+        return [m for m, sig in run_ownruin(cfg, tuple(case["seq"])) if not (sig and kn.match("C07", sig))]
     try:
         env, sink, cash = build(cfg)
     except Exception as ex:
